@@ -14,6 +14,10 @@ type LifeReport struct {
 	LeftAfterHour         []string // system goroutines alive then, other than handlers whose gate is closed: "name @ where"
 	HeldHandlers          int
 	LeftAtEnd             []string // system goroutines alive after every gate was opened
+	// C10: the peer stays connected after the drain; has ServeConn returned an hour later?
+	StayedChecked          bool
+	ReturnedWhilePeerStays bool
+	LeftWhilePeerStays     []string
 }
 
 // RunSrvLife: workload with faults, drain, peer goes away, +1 h, open held gates. The oracle sees every stage.
@@ -29,6 +33,18 @@ func RunSrvLife(plan *SrvPlan, tape *Tape, searchSeed uint64, prop string, onlin
 	if ok() {
 		w.phase = 1
 		sim.RunPhase(w, 0, false)
+	}
+	if ok() && plan.Trail != "" && plan.Trail != "disconnect" && !w.peerGone {
+		// the peer stays connected (sending, silent or not reading): the connection handler must end by itself
+		sim.RunPhase(w, time.Hour, false)
+		w.Check()
+		rep.StayedChecked = true
+		rep.ReturnedWhilePeerStays = w.Returned
+		if !w.Returned {
+			for _, n := range sim.Alive(false) {
+				rep.LeftWhilePeerStays = append(rep.LeftWhilePeerStays, shortName(n)+" @ "+sim.ParkedOn(n))
+			}
+		}
 	}
 	if ok() {
 		w.phase = 2
@@ -77,6 +93,7 @@ func RunSrvLife(plan *SrvPlan, tape *Tape, searchSeed uint64, prop string, onlin
 		post(w, res)
 	}
 	res.Probes = w.Probes
+	res.Extra = w.ExtraViol
 	res.PoolViol = len(sim.R.Pools.Viol)
 	res.Summary = w.Summary() + fmt.Sprintf(" life=%+v", *rep)
 	res.Leaked = rep.LeftAtEnd
